@@ -171,25 +171,30 @@ func (p *Processor) OpenCDR(
 	}
 	if pduSessionInfo := chargingData.PDUSessionChargingInformation; pduSessionInfo != nil {
 		logger.ChargingdataPostLog.Debugln("PDU Session Charging Event")
-		chfCdr.PDUSessionChargingInformation = &cdrType.PDUSessionChargingInformation{
+		pduCdr := &cdrType.PDUSessionChargingInformation{
 			PDUSessionChargingID: cdrType.ChargingID{
 				Value: int64(pduSessionInfo.ChargingId),
 			},
-			PDUSessionId: cdrType.PDUSessionId{
-				Value: int64(pduSessionInfo.PduSessionInformation.PduSessionID),
-			},
-			NetworkSliceInstanceID: &cdrType.SingleNSSAI{
-				SST: cdrType.SliceServiceType{
-					Value: int64(pduSessionInfo.PduSessionInformation.NetworkSlicingInfo.SNSSAI.Sst),
-				},
-				SD: &cdrType.SliceDifferentiator{
-					Value: []byte(pduSessionInfo.PduSessionInformation.NetworkSlicingInfo.SNSSAI.Sd),
-				},
-			},
-			DataNetworkNameIdentifier: &cdrType.DataNetworkNameIdentifier{
-				Value: asn.IA5String(pduSessionInfo.PduSessionInformation.DnnId),
-			},
 		}
+		if info := pduSessionInfo.PduSessionInformation; info != nil {
+			pduCdr.PDUSessionId = cdrType.PDUSessionId{
+				Value: int64(info.PduSessionID),
+			}
+			if info.NetworkSlicingInfo != nil && info.NetworkSlicingInfo.SNSSAI != nil {
+				pduCdr.NetworkSliceInstanceID = &cdrType.SingleNSSAI{
+					SST: cdrType.SliceServiceType{
+						Value: int64(info.NetworkSlicingInfo.SNSSAI.Sst),
+					},
+					SD: &cdrType.SliceDifferentiator{
+						Value: []byte(info.NetworkSlicingInfo.SNSSAI.Sd),
+					},
+				}
+			}
+			pduCdr.DataNetworkNameIdentifier = &cdrType.DataNetworkNameIdentifier{
+				Value: asn.IA5String(info.DnnId),
+			}
+		}
+		chfCdr.PDUSessionChargingInformation = pduCdr
 	}
 
 	chfCdr.ChargingID.Value = int64(chargingData.ChargingId)
